@@ -3,6 +3,8 @@
 -/
 import SymfcModel.Model.Inst
 import SymfcModel.Model.Coset
+import SymfcModel.Lemmas.Chunk
+import SymfcModel.Lemmas.LinAlg
 namespace Symfc.C02
 open Symfc
 
@@ -12,5 +14,29 @@ open Symfc
 theorem coset_mask_matches_factor :
     Gen.cosetFastMaskO2_fast = false ∧ Gen.cosetFastMaskO3_fast = true ∧ Gen.cosetFastMaskO3_stable = false ∧
     Gen.cosetFastMaskO4_fast = true ∧ Gen.cosetFastMaskO4_stable = false := by decide
+
+/-- C02.b: the coset average is accumulated in `n_cosets` partial sums (`cosets[i % n_cosets] += mat`, then
+    `sum(cosets)`); for every `n_cosets ≥ 1` and every list of summands this equals the plain sum, so every
+    operation contributes exactly once whatever the number of unique rotations. -/
+theorem chunked_coset_sum_is_the_plain_sum {α} (add : α → α → α) (zero : α)
+    (hassoc : ∀ a b c, add (add a b) c = add a (add b c)) (hcomm : ∀ a b, add a b = add b a)
+    (hzero : ∀ a, add zero a = a) (nCosets : Nat) (hn : 1 ≤ nCosets) (mats : List α) :
+    chunkedSum add zero nCosets mats = mats.foldl add zero :=
+  chunkedSum_eq_foldl add zero hassoc hcomm hzero nCosets hn mats
+
+section L3
+open Matrix
+variable {K : Type*} [Field K] [LinearOrder K] [IsStrictOrderedRing K]
+variable {m k : Type*} [Fintype m] [Fintype k]
+
+/-- C02.c (L3): for `C` with orthonormal columns (`c_pt`) and `P` an orthogonal projector (the average of the
+    space-group representation), the unit eigenvectors of the compressed matrix `CᵀPC` handed to `eigsh_projector`
+    are exactly the `v` whose expansion `C v` is fixed by `P`: `range(C E₁) = range C ∩ Fix P`. -/
+theorem compressed_projector_unit_eigenvectors [DecidableEq m] [DecidableEq k] (C : Matrix m k K) (hC : Cᵀ * C = 1)
+    (P : Matrix m m K) (hPs : Pᵀ = P) (hPi : P * P = P) (v : k → K) :
+    (Cᵀ * P * C) *ᵥ v = v ↔ P *ᵥ (C *ᵥ v) = C *ᵥ v :=
+  LinAlg.compressed_projector_unit_iff C hC P hPs hPi v
+
+end L3
 
 end Symfc.C02
